@@ -1,7 +1,7 @@
 /-
-Finding 4 (real code): the residual clause `VerdictDef` of the contract cannot be dropped.
-`try_normalize_logic_constraint` decides `(b and (x / 0)) ≤ 1` from the literal alone (`Tautology`), the logic
-value is never lowered, the division by zero never reported: the model compiles to NO row.
+Finding 4 (real code, repaired in rooc ba14904): `try_normalize_logic_constraint` decided
+`(b and (x / 0)) ≤ 1` from the literal alone (`Tautology`), the logic value was never lowered, the division by zero
+never reported: the model compiled to NO row.  Regression: it is now rejected.
 `min x  s.t.  c: (b and (x / 0)) ≤ 1`,  `x ∈ Real(0, 1)`, `b` Boolean.
 -/
 import Rooc.Proofs.LinDExamples
@@ -30,75 +30,90 @@ theorem exTaut_norm : normalizeExp (exTautL : Exp (Ext K)) = some exTautL := by
   simp [exTautL, normalizeExp, flattenFuel, flattenF, simplify, naryCore, naryFlatten, naryStep, naryScan, naryKeep,
     mayBeUndefinedAny, mayBeUndefined, divCore, isNumEq, isNonzeroLit, Arith.ne, Arith.eq, Ext.eq, Arith.zero, allNums]
 
-/-- the verdict is `Tautology`: nothing is emitted, nothing is lowered. -/
-theorem exTaut_proc (s : St (Ext K)) : processConstraint (exTautC : Constraint (Ext K)) s = .ok ((), s) := by
-  unfold processConstraint exTautC
-  simp only [bind_ok, simplifyFlat_ok]
-  refine ⟨_, _, ⟨_, exTaut_norm, rfl⟩, _, _, ⟨_, exOr_norm_one, rfl⟩, ?_⟩
-  simp only [Bool.false_eq_true, if_false]
+theorem exTaut_norm_sub : normalizeExp (.bin .sub (exTautL : Exp (Ext K)) (.num (.fin 1)))
+    = some (.bin .sub exTautL (.num (.fin 1))) := by
+  simp [exTautL, normalizeExp, flattenFuel, flattenF, simplify, naryCore, naryFlatten, naryStep, naryScan, naryKeep,
+    mayBeUndefinedAny, mayBeUndefined, divCore, subCore, isNumEq, isNonzeroLit, Arith.ne, Arith.eq, Ext.eq, Arith.zero,
+    allNums]
+
+theorem exTaut_div (req : Req) (s : St (Ext K)) :
+    linExp (.bin .div (.var "x") (.num (.fin 0)) : Exp (Ext K)) req s = .error .divisionByZero := by
+  rw [linExp]
+  have h0 : Arith.eq (Ext.fin (0 : K)) (Arith.zero : Ext K) = true := by simp [Arith.eq, Ext.eq, Arith.zero]
+  rw [if_pos h0]
+  rfl
+
+/-- the logic value is lowered (the operand `b` is fine, the operand `x / 0` is not). -/
+theorem exTaut_lin (req : Req) (s : St (Ext K)) (hb : isBoolVar s.domain "b" = true) :
+    linExp (exTautL : Exp (Ext K)) req s = .error .divisionByZero := by
+  rw [exTautL, linExp]
+  simp only [List.isEmpty_cons, Bool.false_eq_true, if_false]
+  rw [bind_err]
+  left
+  rw [linBinaryOperands, bind_err]
+  right
+  refine ⟨ctxToExp (Ctx.fromVar "b" Arith.one), s, ?_, ?_⟩
+  · rw [linBinaryOperand_ok]
+    refine ⟨Ctx.fromVar "b" Arith.one, by rw [linExp]; rfl, ?_, rfl⟩
+    simp [isBinaryCtx, fromVar_eq, hb, Arith.eq, Ext.eq, Arith.one, Arith.zero]
+  · rw [bind_err]
+    left
+    rw [linBinaryOperands, bind_err]
+    left
+    unfold linBinaryOperand
+    rw [bind_err]
+    left
+    exact exTaut_div _ _
+
+/-- since fix ba14904 the verdict is no longer `Tautology`: the constraint takes the generic path, the logic value
+is lowered, its division by zero reported. -/
+theorem exTaut_proc (s : St (Ext K)) (hb : isBoolVar s.domain "b" = true) :
+    processConstraint (exTautC : Constraint (Ext K)) s = .error .divisionByZero := by
+  unfold processConstraint
+  rw [bind_err]
+  right
+  refine ⟨exTautL, s, (simplifyFlat_ok _ _ _).mpr ⟨_, exTaut_norm, rfl⟩, ?_⟩
+  rw [bind_err]
+  right
+  refine ⟨.num (.fin 1), s, (simplifyFlat_ok _ _ _).mpr ⟨_, exOr_norm_one, rfl⟩, ?_⟩
+  show dispatch "c" exTautL .le (.num (.fin 1)) s = _
   unfold dispatch
-  simp only [bind_ok, get_ok]
+  rw [bind_err]
+  right
   refine ⟨s, s, rfl, ?_⟩
   have h01 : (0 : K) ≤ 1 := zero_le_one
-  have : tryNormalize s.domain (exTautL : Exp (Ext K)) .le (.num (.fin 1)) = some .tautology := by
-    simp [tryNormalize, isLogicValue, exTautL, cmpHolds, Arith.le, Ext.le, Arith.zero, Arith.one, h01]
-  simp only [this, pure_ok]
+  have : tryNormalize s.domain (exTautL : Exp (Ext K)) .le (.num (.fin 1)) = none := by
+    simp [tryNormalize, isLogicValue, exTautL, cmpHolds, Arith.le, Ext.le, Arith.zero, Arith.one, h01,
+      mayBeUndefined, mayBeUndefinedAny, isNonzeroLit, Arith.ne, Arith.eq, Ext.eq]
+  simp only [this]
+  unfold emitConstraint
+  simp only [exTaut_norm_sub]
+  rw [bind_err]
+  left
+  rw [linExp, bind_err]
+  left
+  exact exTaut_lin _ s hb
 
-noncomputable def exTautLM : LinModel (Ext K) :=
-  assemble exTaut (Ctx.fromVar "x" Arith.one)
-    { queue := [], rows := [], domain := (exTaut : Model (Ext K)).domain, bounds := [] }
-
-theorem exTaut_ok : linearizeWith (exTaut : Model (Ext K)) [] (exTaut : Model (Ext K)).domain = .ok exTautLM := by
+/-- **regression for the repaired finding 4** (rooc ba14904): `min x s.t. (b and (x / 0)) ≤ 1` used to compile to
+NO row (verdict `Tautology` from the literal alone); the compilation is now rejected with `divisionByZero`. -/
+theorem exTaut_error :
+    linearizeWith (exTaut : Model (Ext K)) [] (exTaut : Model (Ext K)).domain = .error .divisionByZero := by
   let s0 : St (Ext K) := { queue := (exTaut : Model (Ext K)).constraints, domain := (exTaut : Model (Ext K)).domain, bounds := [] }
-  have hdrain : drain drainFuel s0 = .ok ((), { s0 with queue := [] }) := by
-    have h1 : drainFuel = 999998 + 1 + 1 := rfl
-    rw [h1]
-    apply drain_cons _ s0 _ _ [] rfl (exTaut_proc _)
-    exact drain_nil _ _ rfl
-  exact (linearizeWith_ok_iff _ _ _ _).mpr ⟨.var "x", s0, Ctx.fromVar "x" Arith.one, s0, _,
-    by simp [simplifyFlat_ok, exAbs_norm_var, exTaut, s0], by simp [linExp, pure_ok], hdrain, rfl⟩
-
-theorem exTaut_linFeasible : linFeasible (exTautLM : LinModel (Ext K)) (fun _ => 0) = true := by
-  simp [exTautLM, assemble, linFeasible, exTaut, dedupNames, sortStr, insertSortedDup,
-    extractCoeffs, rowHolds, dotK, cmpK, inDomain, geExt, leExt, indexOf, indexOf.go]
-
-theorem exTaut_not_srcFeasible (ρ : String → K) : ¬ srcFeasible (exTaut : Model (Ext K)) ρ = true := by
-  intro h
-  have := ((srcFeasible_iff _ _).mp h).1 exTautC (by simp [exTaut])
-  simp [constraintHolds, exTautC, exTautL, eval, evalList, binVal] at this
-
-/-- **the residual clause cannot be dropped** (finding 4): every STATIC clause of the contract holds — scope,
-finite literals, no collapsing and/or node — `DomRel` and `BoxEnforced` hold, the model compiles, the linear
-model is feasible (`x = 0`, `b = 0`) and the source model is not (its constraint has no value at any
-assignment). -/
-theorem verdict_needed :
-    ∃ (m : Model (Ext K)) (b : BoundsMap (Ext K)) (d : List (DomVar (Ext K))) (lm : LinModel (Ext K))
-      (ρ : String → K),
-      linearizeWith m b d = .ok lm ∧ DomRel m d ∧ BoxEnforced b d ∧
-      (∀ c ∈ m.constraints, GoodS d c.lhs ∧ GoodS d c.rhs) ∧ GoodS d m.objective ∧
-      linFeasible lm ρ = true ∧ ∀ ρ' : String → K, ¬ srcFeasible m ρ' = true := by
-  have sx : inScope (exTaut : Model (Ext K)).domain "x" :=
-    ⟨{ name := "x", ty := .real (.fin 0) (.fin 1), usage := 1 }, by simp [exTaut], rfl, by simp⟩
-  have sb : inScope (exTaut : Model (Ext K)).domain "b" :=
-    ⟨{ name := "b", ty := .bool, usage := 1 }, by simp [exTaut], rfl, by simp⟩
-  have hnd : ((exTaut : Model (Ext K)).domain.map (·.name)).Nodup := by simp [exTaut]
-  refine ⟨exTaut, [], exTaut.domain, exTautLM, fun _ => 0, exTaut_ok,
-    ⟨hnd, fun _ h => h, fun ρ h => ((srcFeasible_iff _ ρ).mp h).2, fun dv hdv hu => ⟨dv, hdv, rfl, hu⟩⟩,
-    by intro ρ _ n bd _ hl; simp [lookupB] at hl, ?_, ?_, exTaut_linFeasible, exTaut_not_srcFeasible⟩
-  · intro c hc
-    simp only [exTaut, List.mem_singleton] at hc
-    subst hc
-    have hvars : ∀ y ∈ varsOf (exTautL : Exp (Ext K)), inScope (exTaut : Model (Ext K)).domain y := by
-      intro y hy
-      simp [exTautL, varsOf, varsOfList] at hy
-      rcases hy with rfl | rfl; exacts [sb, sx]
-    refine ⟨⟨hvars, by simp [FinE, exTautC, exTautL, finiteLits, finiteLitsL, isFin], ?_⟩,
-      ⟨by simp [exTautC, varsOf], by simp [FinE, exTautC, finiteLits, isFin], fun ρ _ => by simp [exTautC, NC]⟩⟩
-    exact NCon.ofFlag hnd hvars (by
-      simp [exTautC, exTautL, collapsesNonbinary, collapsesNonbinaryAny, collapseHere, simplify, naryCore, naryFlatten,
-        naryStep, naryScan, naryKeep, mayBeUndefinedAny, mayBeUndefined, divCore, isNumEq, isNonzeroLit, Arith.ne,
-        Arith.eq, Ext.eq, Arith.zero, allNums])
-  · exact ⟨by intro y hy; simp [exTaut, varsOf] at hy; subst hy; exact sx, by simp [FinE, exTaut, finiteLits],
-      fun ρ _ => by simp [exTaut, NC]⟩
+  have hb : isBoolVar s0.domain "b" = true := by simp [s0, exTaut, isBoolVar, domainType]
+  have hdrain : drain drainFuel s0 = .error .divisionByZero := by
+    have h1 : drainFuel = 999999 + 1 := rfl
+    rw [h1, drain_succ, bind_err]
+    right
+    refine ⟨s0, s0, rfl, ?_⟩
+    show (do set { s0 with queue := [] }; processConstraint exTautC; drain 999999 : M (Ext K) Unit) s0 = _
+    rw [bind_err]
+    right
+    refine ⟨⟨⟩, _, rfl, ?_⟩
+    rw [bind_err]
+    left
+    exact exTaut_proc _ hb
+  exact linearizeWith_error_of_drain (o := .var "x") (c := Ctx.fromVar "x" Arith.one) (s1 := s0)
+    ((simplifyFlat_ok _ _ _).mpr ⟨_, by simpa [exTaut] using exAbs_norm_var (K := K) "x", rfl⟩)
+    (by rw [linExp]; rfl) hdrain
 
 end Rooc.LinP
